@@ -209,10 +209,11 @@ def Dataset.WF (ds : Dataset) : Prop := ∀ v ∈ ds.vars, v.WF
 /-! ### hyperslabs on row-major data -/
 
 /-- `check_hyperslab` on one axis of length `N`: the slice (as parsed: start `a`, stop `b+1`,
-    step `k`) starts inside the axis, is not empty or inverted and has a stride ≥ 1.  A stop
-    beyond the extent is legal (it is clipped). -/
+    step `k`) starts inside the axis (or at 0 on an axis of length 0: the whole, empty, axis), is not empty or
+    inverted and has a stride ≥ 1.  A stop beyond the extent is legal (it is clipped). -/
 def validSl (N : Nat) (s : PSlice) : Bool :=
-  decide (0 ≤ s.start.getD 0 ∧ s.start.getD 0 < (N : Int) ∧ s.start.getD 0 < s.stop.getD N ∧ 1 ≤ s.step.getD 1)
+  decide (0 ≤ s.start.getD 0 ∧ (s.start.getD 0 < (N : Int) ∨ (N = 0 ∧ s.start.getD 0 = 0)) ∧
+    s.start.getD 0 < s.stop.getD N ∧ 1 ≤ s.step.getD 1)
 
 /-- take the sub-blocks `idx` of a row-major block list, recursively per axis -/
 def selND : List Nat → List (List Nat) → List Val → List Val
